@@ -177,3 +177,63 @@ class PExpressionTableColumns:
 
     def ensures(case, old, new, result):
         return new[1][0] is new[1][1]
+
+
+def any_case(word):
+    return "".join("[%s%s]" % (c.lower(), c.upper()) if c.isalpha() else c for c in word)
+
+
+MODIFIERS = {"EXTERNAL": {"external": True}, "TRANSIENT": {"transient": True}, "GLOBAL": {"is_global": True}, "TEMP": {"temp": True},
+             "TEMPORARY": {"temp": True}, "ICEBERG": {}, "VOLATILE": {}, "LOCAL": {}}
+
+
+@contract
+class PCreateTable:
+    """CREATE [OR REPLACE] [modifier [modifier]] TABLE [IF NOT EXISTS]: the documented flags, modifier words in any letter case"""
+    fn = "dialects.sql.Table.p_create_table"
+    props = ["C01", "C05", "C11"]
+    cases = {
+        "CREATE TABLE": dict(words=0, replace=False, ine=False),
+        "CREATE TABLE IF NOT EXISTS": dict(words=0, replace=False, ine=True),
+        "CREATE OR REPLACE TABLE": dict(words=0, replace=True, ine=False),
+        "CREATE id TABLE": dict(words=1, replace=False, ine=False),
+        "CREATE id TABLE IF NOT EXISTS": dict(words=1, replace=False, ine=True),
+        "CREATE OR REPLACE id TABLE": dict(words=1, replace=True, ine=False),
+        "CREATE id id TABLE": dict(words=2, replace=False, ine=False),
+    }
+
+    def build(G, case):
+        alt = case["_name"]
+        names = sorted(MODIFIERS)
+        vals = {}
+        ids = [i for i, s in enumerate(alt.split(), 1) if s == "id"]
+        chosen = []
+        if case["words"] == 1:
+            k = names[G.choice("modifier", len(names))]
+            vals[ids[0]] = G.str("w1", any_case(k), k)
+            chosen = [k]
+        elif case["words"] == 2:
+            # the documented two-word form: GLOBAL | LOCAL followed by TEMPORARY | TEMP
+            a = ["GLOBAL", "LOCAL"][G.choice("first", 2)]
+            b = ["TEMPORARY", "TEMP"][G.choice("second", 2)]
+            vals[ids[0]] = G.str("w1", any_case(a), a)
+            vals[ids[1]] = G.str("w2", any_case(b), b)
+            chosen = [a, b]
+        return dict(args=[G.parser(), production(G, alt, vals)], ghost=dict(chosen=chosen))
+
+    def spec(case, self_, p):
+        out = {}
+        if case["ine"]:
+            out["if_not_exists"] = True
+        if case["replace"]:
+            out["replace"] = True
+        words = [w for w in list(p)[1:] if w not in ["CREATE", "OR", "REPLACE", "TABLE", "IF", "NOT", "EXISTS"]]
+        if case["words"] == 1:
+            for k in sorted(MODIFIERS):
+                if words[0].upper() == k:
+                    out.update(MODIFIERS[k])
+        elif case["words"] == 2:
+            out["temp"] = True
+            if words[0].upper() == "GLOBAL":
+                out["is_global"] = True
+        p[0] = out
